@@ -10,7 +10,7 @@ package main
 //
 // Domain restrictions of the generator (each is a stated scope limit of the model, design.d/PIPE.md):
 //   no patches / images / replicas / replacements / vars / components / configurations / helm / plugins,
-//   generators with literal sources only (all behaviours), no generatorOptions, no immutable;
+//   generators with literal sources only (all behaviours, generatorOptions), no immutable;
 //   no `kind: List`, no empty documents, no anchors, no comments, no local-config annotation,
 //   no internal.config.kubernetes.io annotations in inputs, no ',' in names (PrevIds panic, C12 finding).
 //
@@ -90,6 +90,13 @@ type pipeGenSpec struct {
 	DisableHash bool              `json:"disableHash"`
 }
 
+// generatorOptions: of one kustomization
+type pipeGenOpts struct {
+	Labels      map[string]string `json:"labels"`
+	Annos       map[string]string `json:"annotations"`
+	DisableHash bool              `json:"disableHash"`
+}
+
 type pipeFile struct {
 	Name string   `json:"name"`
 	Docs []string `json:"docs"` // YAML text of each document
@@ -110,6 +117,7 @@ type pipeDir struct {
 	CommonAnnos  map[string]string `json:"commonAnnotations"`
 	CmGens       []pipeGenSpec     `json:"cmGens"`
 	SecGens      []pipeGenSpec     `json:"secGens"`
+	GenOpts      *pipeGenOpts      `json:"genOpts,omitempty"`
 	Ents         []*pipeEnt        `json:"ents"`
 	parent       *pipeDir
 	depth        int
@@ -613,6 +621,19 @@ func pipeGenCase(rng *Rng, rules []krusty.VerifC03Rule) *pipeCase {
 			g.objs = append(g.objs, &pipeObj{ID: "g", Kind: "Secret", AV: "v1", Name: sp.Name, Ns: sp.Namespace, Layer: d, Gen: true})
 		}
 	}
+	// generatorOptions (also without any generator: the field alone makes the kustomization non-empty)
+	for _, d := range g.dirs {
+		if (len(d.CmGens)+len(d.SecGens) > 0 && rng.Chance(30)) || rng.Chance(3) {
+			o := &pipeGenOpts{DisableHash: rng.Chance(30)}
+			if rng.Chance(60) {
+				o.Labels = pipeRandPairs(rng, 2)
+			}
+			if rng.Chance(40) {
+				o.Annos = pipeRandPairs(rng, 2)
+			}
+			d.GenOpts = o
+		}
+	}
 	// resources
 	nres := 1 + rng.Intn(6)
 	for i := 0; i < nres; i++ {
@@ -912,6 +933,19 @@ func pipeRenderDir(pc *pipeCase, d *pipeDir, path string, top bool) {
 		}
 		k["secretGenerator"] = l
 	}
+	if d.GenOpts != nil {
+		o := map[string]interface{}{}
+		if d.GenOpts.DisableHash {
+			o["disableNameSuffixHash"] = true
+		}
+		if len(d.GenOpts.Labels) > 0 {
+			o["labels"] = pipeStrMap(d.GenOpts.Labels)
+		}
+		if len(d.GenOpts.Annos) > 0 {
+			o["annotations"] = pipeStrMap(d.GenOpts.Annos)
+		}
+		k["generatorOptions"] = o
+	}
 	if top {
 		switch pc.Sort {
 		case "fifo":
@@ -1062,9 +1096,15 @@ func pipeCoqDir(d *pipeDir, vals map[string]bool) (string, bool) {
 			ents = append(ents, t)
 		}
 	}
-	dirs := fmt.Sprintf("(mkPDirs %s %s %s [%s] %s %s [%s] [%s])", coqStr(d.Ns), coqStr(d.Prefix), coqStr(d.Suffix),
+	gopts := "None"
+	if d.GenOpts != nil {
+		note(d.GenOpts.Labels)
+		note(d.GenOpts.Annos)
+		gopts = fmt.Sprintf("(Some (mkPGopts %s %s %s))", pipeCoqPairs(d.GenOpts.Labels), pipeCoqPairs(d.GenOpts.Annos), coqBool(d.GenOpts.DisableHash))
+	}
+	dirs := fmt.Sprintf("(mkPDirsG %s %s %s [%s] %s %s [%s] [%s] %s)", coqStr(d.Ns), coqStr(d.Prefix), coqStr(d.Suffix),
 		strings.Join(labels, "; "), pipeCoqPairs(d.CommonLabels), pipeCoqPairs(d.CommonAnnos),
-		strings.Join(cm, "; "), strings.Join(sec, "; "))
+		strings.Join(cm, "; "), strings.Join(sec, "; "), gopts)
 	return fmt.Sprintf("(PDir %s %s [%s])", coqStr(d.Name), dirs, strings.Join(ents, "; ")), true
 }
 
@@ -1242,6 +1282,7 @@ func pipeCountKinds(r *Run, d *pipeDir, depth int, maxDepth *int, ndirs *int) {
 	used("labels", len(d.Labels) > 0)
 	used("configMapGenerator", len(d.CmGens) > 0)
 	used("secretGenerator", len(d.SecGens) > 0)
+	used("generatorOptions", d.GenOpts != nil)
 	for _, e := range d.Ents {
 		if e.File != nil {
 			for _, y := range e.File.Docs {
